@@ -129,6 +129,14 @@ def check_pipeline(entry, seq, adds, mode, return_ctx, B, p):
         p.violation(f"C18:invalid_sequence_not_rejected{tag}", case, f"{case}: default collation asked for twice / after it happened, "
                     f"but the call returned")
         return
+    try:
+        _judge_pipeline(entry, seq, adds, mode, return_ctx, B, p, case, tag, exp, out, log, calls)
+    except Exception as e:
+        p.violation(f"C18:output_malformed:{type(e).__name__}{tag}", case, f"{case}: the output cannot be read as (batch[, batched ctx]): {e!r}")
+
+
+def _judge_pipeline(entry, seq, adds, mode, return_ctx, B, p, case, tag, exp, out, log, calls):
+    import torch
     saw, ncoll = exp
 
     def bad(kind, msg):
@@ -252,7 +260,7 @@ def check_padding(profile, extra, scalar, return_ctx, single_item, p):
             p.violation(f"C18:padding:ctx_not_returned{tag}", case, f"{type(out)}")
             return
         out, ctx = out
-        if set(ctx) != {"pre"} or ctx["pre"].tolist() != [float(i) for i in range(B)]:
+        if set(ctx) != {"pre"} or not torch.is_tensor(ctx["pre"]) or ctx["pre"].tolist() != [float(i) for i in range(B)]:
             p.violation(f"C18:padding:ctx_wrong{tag}", case, f"{ctx}")
             return
     fields = [out] if single_item else list(out)
